@@ -112,6 +112,11 @@ impl Mock {
                         if conn.write_all(r.as_bytes(), T).is_err() {
                             break;
                         }
+                        if head.to_ascii_lowercase().contains("x-mock-close") {
+                            // the backend ends the connection on its own after a complete response
+                            thread::sleep(Duration::from_millis(30));
+                            break;
+                        }
                     }
                     if counted {
                         open.fetch_sub(1, Ordering::SeqCst);
@@ -147,8 +152,11 @@ struct Case {
     reg: Vec<Reg>,
     removed: HashSet<u64>,
     held: Vec<(RawConn, u64)>,
+    /// client connections whose backend side was closed by the backend
+    parked: Vec<RawConn>,
     policy: String,
     hc: bool,
+    tcp: bool,
     /// probes with a failing answer seen when the address was last declared sick (confirmed sick)
     confirmed_sick: HashSet<u64>,
     epoch: Instant,
@@ -185,11 +193,16 @@ fn cluster_cfg(policy: &str, metric: &str, hc: bool) -> sozu_command_lib::proto:
 }
 
 impl Case {
-    fn start(hc: bool) -> RigResult<Case> {
+    fn start(hc: bool, tcp: bool) -> RigResult<Case> {
         let mut w = Worker::start(WorkerOpts { front_timeout: Some(30), back_timeout: Some(30), connect_timeout: Some(3), ..Default::default() })?;
-        let front = w.add_http_listener()?;
+        // the same scenarios run behind a TCP listener (tcp.rs has its own connect / close glue)
+        let front = if tcp { w.add_tcp_listener()? } else { w.add_http_listener()? };
         w.add_cluster(cluster_cfg("rnd", "-", hc))?;
-        w.add_http_frontend(front, "localhost", "/", "c0")?;
+        if tcp {
+            w.add_tcp_frontend(front, "c0")?;
+        } else {
+            w.add_http_frontend(front, "localhost", "/", "c0")?;
+        }
         let mut mocks = vec![];
         for i in 0..NMOCK {
             mocks.push(Mock::start(i)?);
@@ -203,8 +216,10 @@ impl Case {
             reg: vec![],
             removed: HashSet::new(),
             held: vec![],
+            parked: vec![],
             policy: "rnd".into(),
             hc,
+            tcp,
             confirmed_sick: HashSet::new(),
             epoch: Instant::now(),
             inconclusive: false,
@@ -230,7 +245,8 @@ impl Case {
     }
 
     /// one proxied request; returns the serving address, or Err(status) (0 = no answer)
-    fn request(&mut self, cookie: Option<u64>, hold: bool) -> Result<u64, u16> {
+    fn request(&mut self, cookie: Option<u64>, mode: &str) -> Result<u64, u16> {
+        let hold = mode == "hold";
         let before = self.total_open();
         let mut c = match RawConn::connect(self.front) {
             Ok(c) => c,
@@ -240,7 +256,8 @@ impl Case {
             }
         };
         let ck = cookie.map(|s| format!("Cookie: SOZUBALANCEID=s{s}\r\n")).unwrap_or_default();
-        let req = format!("GET / HTTP/1.1\r\nHost: localhost\r\n{ck}\r\n");
+        let bc = if mode == "bclose" { "X-Mock-Close: 1\r\n" } else { "" };
+        let req = format!("GET / HTTP/1.1\r\nHost: localhost\r\n{ck}{bc}\r\n");
         if c.write_all(req.as_bytes(), T).is_err() {
             return Err(0);
         }
@@ -256,6 +273,15 @@ impl Case {
         let a: u64 = String::from_utf8_lossy(&msg.body).trim_start_matches('m').parse().unwrap_or(99);
         if hold {
             self.held.push((c, a));
+        } else if mode == "bclose" {
+            // the client stays connected; the backend closes: the count must be released all the same
+            self.parked.push(c);
+            if !poll_until(T, || self.total_open() <= before) {
+                self.tags.push("inconclusive:backend-close-not-observed".into());
+                self.inconclusive = true;
+            }
+            thread::sleep(Duration::from_millis(60));
+            self.tags.push("backend-initiated-close".into());
         } else {
             c.close();
             // sozu releases the backend connection (dec_connections, then the socket): wait until
@@ -411,8 +437,7 @@ impl Case {
             }
             ("req", 4) => {
                 let cookie = if w[2] == "-" { None } else { w[2].parse::<u64>().ok() };
-                let hold = w[3] == "hold";
-                let res = self.request(cookie, hold);
+                let res = self.request(cookie, w[3]);
                 if self.inconclusive {
                     return "inconclusive".into();
                 }
@@ -433,6 +458,11 @@ impl Case {
                         self.tags.push("answer:503".into());
                         "none".into()
                     }
+                    // a TCP listener has no 503: it closes the client connection
+                    Err(0) if self.tcp => {
+                        self.tags.push("answer:tcp-closed".into());
+                        "none".into()
+                    }
                     Err(s) => format!("err {s}"),
                 }
             }
@@ -449,6 +479,9 @@ impl Case {
         while let Some((c, _)) = self.held.pop() {
             c.close();
         }
+        while let Some(c) = self.parked.pop() {
+            c.close();
+        }
         if !poll_until(T, || self.total_open() == 0) {
             self.tags.push("inconclusive:backend-close-not-observed".into());
             return;
@@ -456,9 +489,10 @@ impl Case {
         let prim: Vec<u64> = self.reg.iter().filter(|r| !r.backup && self.live_ok(r.addr)).map(|r| r.addr).collect();
         let refusing = self.reg.iter().any(|r| r.addr >= NMOCK);
         if self.policy == "ll" && prim.len() >= 2 && !refusing && self.confirmed_sick.is_empty() {
-            if let Ok(a) = self.request(None, false) {
+            if let Ok(a) = self.request(None, "close") {
                 if a != prim[0] {
-                    self.oracle.push(("bb-count-not-zero-at-quiescence".into(), format!("all connections closed, least-loaded chose address {a}, first registered eligible primary is {}: a count did not return to 0", prim[0])));
+                    let class = if self.tcp { "bb-tcp-count-not-zero-at-quiescence" } else { "bb-count-not-zero-at-quiescence" };
+                    self.oracle.push((class.into(), format!("all connections closed, least-loaded chose address {a}, first registered eligible primary is {}: a count did not return to 0", prim[0])));
                 }
                 self.tags.push("quiescence-probe".into());
             }
@@ -489,6 +523,10 @@ impl Area for Bb {
         vec![
             // counts through least-loaded: two kept connections, a third goes to the idle one; closing rebalances
             s(&["new", "pol 0 ll conn", "add 0 0 0 - - 0", "add 0 1 1 - - 0", "add 0 2 2 - - 0", "req 0 - hold", "req 0 - hold", "req 0 - close", "req 0 - hold", "req 0 - close", "drop 0", "req 0 - close", "drop 0", "drop 0", "req 0 - close"]),
+            // the backend closes its side after the response, the client stays: the count is released
+            s(&["new", "pol 0 ll conn", "add 0 0 0 - - 0", "add 0 1 1 - - 0", "req 0 - bclose", "req 0 - bclose", "req 0 - hold", "req 0 - bclose", "req 0 - close"]),
+            // the same behind a TCP listener
+            s(&["new", "hc 0 8 1 1", "pol 0 ll conn", "add 0 0 0 - - 0", "add 0 1 1 - - 0", "req 0 - hold", "req 0 - hold", "req 0 - close", "drop 0", "req 0 - close", "rm 0 1", "req 0 - close", "rm 0 0", "req 0 - close"]),
             // refusing address: failure, back-off second, retry on the next, used again after the second
             s(&["new", "pol 0 rr -", "add 0 0 4 - - 0", "add 0 1 1 - - 0", "req 0 - close", "req 0 - close", "req 0 - close", "wait", "req 0 - close", "req 0 - close"]),
             // only refusing addresses: 503 after the retries
@@ -536,12 +574,16 @@ impl Area for Bb {
             // marker for the harness: this case runs with a health check configured
             ops.insert(1, "hc 0 9 1 1".into());
         }
+        let tcp = kind < 4 && rng.chance(1, 2);
+        if tcp {
+            ops.insert(1, "hc 0 8 1 1".into());
+        }
         let len = rng.range(6, 14);
         let mut waits = 0;
         for _ in 0..len {
             let r = rng.below(100);
             if r < 45 {
-                let cookie = if rng.chance(1, 4) { rng.below(4).to_string() } else { "-".into() };
+                let cookie = if !tcp && rng.chance(1, 4) { rng.below(4).to_string() } else { "-".into() };
                 let hold = held < 5 && rng.chance(2, 5);
                 if hold {
                     held += 1;
@@ -549,7 +591,8 @@ impl Area for Bb {
                 if refusing {
                     fails += 1;
                 }
-                ops.push(format!("req 0 {cookie} {}", if hold { "hold" } else { "close" }));
+                let mode = if hold { "hold" } else if !tcp && rng.chance(1, 4) { "bclose" } else { "close" };
+                ops.push(format!("req 0 {cookie} {mode}"));
             } else if r < 60 {
                 if held > 0 {
                     ops.push(format!("drop {}", rng.below(held)));
@@ -583,11 +626,13 @@ impl Area for Bb {
     }
     fn run_impl(&self, ops: &[String]) -> ImplRun {
         let mut r = ImplRun::default();
-        let hc = ops.iter().any(|o| o.starts_with("hc "));
+        // markers: `hc 0 8 ..` = TCP listener, any other `hc` line = health check configured
+        let tcp = ops.iter().any(|o| o.starts_with("hc 0 8 "));
+        let hc = ops.iter().any(|o| o.starts_with("hc ") && !o.starts_with("hc 0 8 "));
         let mut case: Option<Case> = None;
         for op in ops {
             if op.trim() == "new" {
-                match Case::start(hc) {
+                match Case::start(hc, tcp) {
                     Ok(c) => case = Some(c),
                     Err(_) => {
                         r.tags.push("inconclusive:rig-setup-failed".into());
@@ -622,8 +667,17 @@ impl Area for Bb {
         }
         r
     }
+    fn classify_mismatch(&self, ops: &[String], _impl_out: &[String], _model_out: &[String]) -> String {
+        // behind a TCP listener the least-loaded choice deviates because tcp.rs never releases
+        // a connection count (same fingerprint as the quiescence oracle)
+        if ops.iter().any(|o| o.starts_with("hc 0 8 ")) && ops.iter().any(|o| o.starts_with("pol 0 ll") || o.starts_with("pol 0 p2")) {
+            "bb-tcp-count-not-zero-at-quiescence".into()
+        } else {
+            "model-mismatch".into()
+        }
+    }
     fn lines_agree(&self, impl_line: &str, model_line: &str) -> bool {
-        if impl_line == "inconclusive" || model_line == "nondet" || impl_line == "-" || impl_line == model_line {
+        if impl_line == "inconclusive" || model_line.starts_with("nondet") || impl_line == "-" || impl_line == model_line {
             return true;
         }
         let mr = model_line.split(" | ").next().unwrap_or("");
